@@ -202,6 +202,10 @@ class GraphParser:
     _RE_SUICIDE = r'(?:!)?'
     _RE_NODE = _RE_SUICIDE + TaskID.NAME_RE
     _RE_NODE_OR_XTRIG = r'(?:[!@])?' + TaskID.NAME_RE
+    # Task name boundaries (like \b, but "-+%@" are task name characters too,
+    # so that e.g. "a" is not matched inside "a-b" or "b+a").
+    _RE_NAME_START = r'(?<![\w\-+%@])'
+    _RE_NAME_END = r'(?![\w\-+%@])'
     _RE_PARAMS = r'<[\w,=\-+]+>'
     _RE_OFFSET = r'\[[\w\-\+\^:]+\]'
     _RE_QUAL = QUALIFIER + r'[\w\-]+'  # task or fam trigger
@@ -654,13 +658,15 @@ class GraphParser:
                     n_trig = TaskTrigger.standardise_name(trig)
                     if n_trig != trig:
                         if offset:
-                            this = r'\b%s\b%s:%s\b(?!:)' % (
+                            this = r'%s%s%s:%s\b(?!:)' % (
+                                self.__class__._RE_NAME_START,
                                 re.escape(name),
                                 re.escape(offset),
                                 re.escape(trig)
                             )
                         else:
-                            this = r'\b%s:%s\b(?![\[:])' % (
+                            this = r'%s%s:%s\b(?![\[:])' % (
+                                self.__class__._RE_NAME_START,
                                 re.escape(name),
                                 re.escape(trig)
                             )
@@ -674,12 +680,17 @@ class GraphParser:
                         )
                     n_trig = TASK_OUTPUT_SUCCEEDED
                     if offset:
-                        this = r'\b%s\b%s(?!:)' % (
+                        this = r'%s%s%s(?!:)' % (
+                            self.__class__._RE_NAME_START,
                             re.escape(name),
                             re.escape(offset)
                         )
                     else:
-                        this = r'\b%s\b(?![\[:])' % re.escape(name)
+                        this = r'%s%s%s(?![\[:])' % (
+                            self.__class__._RE_NAME_START,
+                            re.escape(name),
+                            self.__class__._RE_NAME_END
+                        )
                     that = f"{name}{offset}:{n_trig}"
                     expr = re.sub(this, that, expr)
 
